@@ -479,6 +479,21 @@ pub fn run_structure(out: &mut dyn Write) {
                 front.insert(0, x);
                 variants.push((format!("front{}", i), build(&front)));
             }
+            // the whole body once more before END, and every pair of chunks repeated (in order) before END
+            if n >= 2 {
+                let mut twice: Vec<usize> = (0..n - 1).collect();
+                twice.extend(0..n - 1);
+                twice.push(n - 1);
+                variants.push(("body-twice".to_string(), build(&twice)));
+                for i in 0..n - 1 {
+                    for j in (i + 1)..n - 1 {
+                        let mut o = base.clone();
+                        o.insert(n - 1, i);
+                        o.insert(n, j);
+                        variants.push((format!("dup-pair{}-{}", i, j), build(&o)));
+                    }
+                }
+            }
             for (vn, m) in variants {
                 let id = format!("struct:{}:{}", target, vn);
                 if !start(out, &id) {
